@@ -234,30 +234,6 @@ def keyArg? (j : Json) : Option KeyArg :=
     | _ => none
   | _ => none
 
-partial def specOf (j : Json) : Option Spec := do
-  let t ← str? (getD j "t")
-  match t with
-  | "str" => (str? (getD j "s")).map .str
-  | "cls" => (str? (getD j "c")).bind clsTable |>.map .cls
-  | "fn" => do
-      let k ← kindOf (getD j "as")
-      let f ← (str? (getD j "f")).bind fnTable
-      -- the harness gives classes to `Selector` as {"t":"cls"}; a callable of any other kind is applied
-      match k with
-      | .cls _ => none
-      | _ => pure (Callable.asSpec ⟨k, f⟩)
-  | "list" => do let l ← (← arr? (getD j "l")).toList.mapM specOf; pure (.list l)
-  | "tuple" => do let l ← (← arr? (getD j "l")).toList.mapM specOf; pure (.tuple l)
-  | "not" => do pure (.notI (← specOf (getD j "s")) (← bool? (getD j "roe")))
-  | "sel" => do pure (.selI (← specOf (getD j "s")) (← bool? (getD j "roe")))
-  | "and" => do let l ← (← arr? (getD j "l")).toList.mapM specOf; pure (.andI l (← bool? (getD j "roe")))
-  | "or" => do let l ← (← arr? (getD j "l")).toList.mapM specOf; pure (.orI l (← bool? (getD j "roe")))
-  | "selctx" => do
-      let k ← kindOf (getD j "as")
-      pure (selectContext (← keyArg? (getD j "key")) ⟨k, ← (str? (getD j "pred")).bind predTable⟩ (← bool? (getD j "roe")))
-  | "bad" => pure .bad
-  | _ => none
-
 /-- the "as" field of a "fn" / "selctx" specification -/
 def kindOf (j : Json) : Option CallKind :=
   match j with
@@ -268,6 +244,27 @@ def kindOf (j : Json) : Option CallKind :=
   | .str "calltuple" => some .tupleLike
   | .str "selector" => some .selectorInst
   | .obj _ => ((str? (getD j "cls")).bind clsTable).map .cls
+  | _ => none
+
+partial def specOf (j : Json) : Option Spec := do
+  let t ← str? (getD j "t")
+  match t with
+  | "str" => (str? (getD j "s")).map .str
+  | "cls" => (str? (getD j "c")).bind clsTable |>.map .cls
+  | "fn" => do
+      let k ← kindOf (getD j "as")
+      let f ← (str? (getD j "f")).bind fnTable
+      pure (Callable.asSpec ⟨k, f⟩)      -- (the harness writes a class given to `Selector` as {"t":"cls"})
+  | "list" => do let l ← (← arr? (getD j "l")).toList.mapM specOf; pure (.list l)
+  | "tuple" => do let l ← (← arr? (getD j "l")).toList.mapM specOf; pure (.tuple l)
+  | "not" => do pure (.notI (← specOf (getD j "s")) (← bool? (getD j "roe")))
+  | "sel" => do pure (.selI (← specOf (getD j "s")) (← bool? (getD j "roe")))
+  | "and" => do let l ← (← arr? (getD j "l")).toList.mapM specOf; pure (.andI l (← bool? (getD j "roe")))
+  | "or" => do let l ← (← arr? (getD j "l")).toList.mapM specOf; pure (.orI l (← bool? (getD j "roe")))
+  | "selctx" => do
+      let k ← kindOf (getD j "as")
+      pure (selectContext (← keyArg? (getD j "key")) ⟨k, ← (str? (getD j "pred")).bind predTable⟩ (← bool? (getD j "roe")))
+  | "bad" => pure .bad
   | _ => none
 
 def resJson : Res → Json
